@@ -19,6 +19,13 @@ def us(x):
 class WorkProbe(probes.ProbeNode):
     """Probe node whose step takes (virtual or real) time: used under the wall clock."""
     work = 0.0
+    startup_sleep = 0.0   # the documented startup() hook takes this long (e.g. homing a robot)
+
+    def startup(self, graph_state, timeout=None):
+        import rex.asynchronous as ra
+        if self.startup_sleep > 0:
+            ra.time.sleep(self.startup_sleep)
+        return True
 
     def step(self, step_state):
         import rex.asynchronous as ra
@@ -169,6 +176,10 @@ def wall_lifecycle_job(job):
     try:
         nodes = continuous_nodes(cfg, job["seed"], wall=True, use_callback=False)
         sup = nodes[cfg["sup"]]
+        # one node's startup() hook takes 5 (virtual) seconds, far more than any phase: the episode clock must still start at 0 when the nodes start
+        # (seeded change C05-h took the common start time before the startup phase)
+        T0 = 5.0
+        nodes[sorted(n for n in nodes if n != cfg["sup"])[0]].startup_sleep = T0
         g = ra.AsyncGraph(nodes=dict(nodes), supervisor=sup, clock=Clock.WALL_CLOCK, real_time_factor=RealTimeFactor.REAL_TIME)
         g.set_record_settings(params=False, rng=False, inputs=False, state=False, output=False)
         gs0 = g.init(jax.random.PRNGKey(job["seed"]))
@@ -207,6 +218,7 @@ def wall_lifecycle_job(job):
                                 t = project(rec, probes.LOG.snapshot(), cfg, eps)
                                 t["id"] = f"{job['id']}/r{ri}e{eps}"
                                 t["first_eligible"] = False
+                                t["t0bound"] = us(T0)
                                 rr["traces"].append(t)
                             except TypeError:
                                 pass  # a connection that consumed nothing (outside the properties)
